@@ -7,14 +7,14 @@
      rem_sites7_all = rem_sites6 minus excluded7_all;  rem_sites7 = rem_sites6 minus both. *)
 From Coq Require Import List NArith Arith Bool Lia Strings.String.
 From V Require Import Base.Bytes Base.Res Spec.EscapeSpec Model.Blocks Proofs.BlocksTotal4Safe.
-From V Require Proofs.BlocksTotal6 Proofs.BlocksTotal7Add Proofs.BlocksTotal7Fm Proofs.BlocksTotal7Loc.
+From V Require Proofs.BlocksTotal6 Proofs.BlocksTotal7Add Proofs.BlocksTotal7Fm Proofs.BlocksTotal7Loc Proofs.BlocksTotal7Cur.
 Import ListNotations.
 Local Open Scope string_scope.
 Local Open Scope list_scope.
 
 (* the sites excluded in this round: for every input / for valid UTF-8 input only *)
 Definition excluded7_all : list string := BlocksTotal7Add.add_sites.
-Definition excluded7_utf8 : list string := BlocksTotal7Fm.fm_sites ++ BlocksTotal7Loc.loc_sites.
+Definition excluded7_utf8 : list string := BlocksTotal7Fm.fm_sites ++ BlocksTotal7Loc.loc_sites ++ BlocksTotal7Cur.cur7_sites.
 Definition excluded7 : list string := excluded7_all ++ excluded7_utf8.
 
 Definition rem_sites7_all : list string := filter (fun s => negb (inl excluded7_all s)) BlocksTotal6.rem_sites6.
@@ -30,7 +30,8 @@ Theorem parse_blocks_no_panic7_utf8 o x s : utf8_valid x = true -> In s excluded
 Proof.
   unfold excluded7_utf8. intros U H.
   apply in_app_or in H. destruct H as [H|H]; [exact (BlocksTotal7Fm.parse_blocks_no_fm_panic o x s U H)|].
-  exact (BlocksTotal7Loc.parse_blocks_no_loc_panic o x s U H).
+  apply in_app_or in H. destruct H as [H|H]; [exact (BlocksTotal7Loc.parse_blocks_no_loc_panic o x s U H)|].
+  exact (BlocksTotal7Cur.parse_blocks_no_cur_panic o x s U H).
 Qed.
 
 Theorem parse_blocks_no_panic7 o x s : utf8_valid x = true -> In s excluded7 -> parse_blocks o x <> Panic s.
